@@ -23,19 +23,20 @@ REQUIRED_CELLS = {t: tuple("target:" + x for x in iohelp.TARGETS) + tuple("delim
                   tuple("enc:" + e for e in iohelp.ENCODINGS) + ("ids:int", "ids:str", "ids:nonascii", "ids:numstr",
                                                                "class:DynGraph", "class:DynDiGraph",
                                                                "src:reciprocal", "src:self-loop",
-                                                               "src:big(>1024 rows)", "src:block-aligned-rows", "ids:magic")
+                                                               "src:big(>1024 rows)", "src:block-aligned-rows", "ids:magic", "src:big-non-ascii")
                   for t in ("quick", "thorough")}
 
 
-def big_program(rng, directed):
-    """16 nodes, every pair present on long spans: more than 1024 snapshot rows / several hundred events"""
+def big_program(rng, directed, long_spans=False):
+    """16 nodes, every pair present on long spans: more than 1024 snapshot rows / several hundred events
+    (long_spans: ~7000 rows, more than 64 KiB)"""
     n = 16
     prog = []
     for i in range(n):
         for j in range(i + 1, n):
             t = rng.randint(0, 3)
             for _ in range(2):
-                ln = rng.randint(4, 9)
+                ln = rng.randint(4, 9) if not long_spans else rng.randint(25, 35)
                 prog.append(("add", i, j, t, t + ln))
                 t += ln + rng.randint(1, 2)
     rng.shuffle(prog)
@@ -68,7 +69,12 @@ def aligned_log_program(rows):
 
 def build(ctx, dn, directed, idkind, big=False):
     rng = ctx.rng
-    if big == "aligned-log":
+    if big == "nonascii-big":
+        # > 64 KiB of rows with two-byte characters in the ids, at a random byte alignment
+        prog = big_program(rng, directed, long_spans=True)
+        pad = "x" * rng.randint(0, 7)
+        idkind = "nonascii-big"
+    elif big == "aligned-log":
         prog = aligned_log_program(4200 if ctx.tier == "quick" else 70000)
     elif big == "aligned":
         prog = aligned_program(rng, 4200 if ctx.tier == "quick" else 70000)
@@ -91,7 +97,10 @@ def build(ctx, dn, directed, idkind, big=False):
         if op[0] in ("path", "star", "cycle", "dn.path", "dn.star", "dn.cycle"):
             for x in op[1]:
                 nm(x)          # bunches that yield no pair still name nodes
-    ids = iohelp.ids_for(rng, idkind, max(len(names), 1))
+    if idkind == "nonascii-big":
+        ids = [pad + "é%dß" % i for i in range(len(names))]
+    else:
+        ids = iohelp.ids_for(rng, idkind, max(len(names), 1))
     if len(ids) < len(names):
         return None
     ren = dict(zip(names, ids))
@@ -257,6 +266,9 @@ def run(ctx, dn):
     n = 0
     # one large graph per shard first (block-wise writers, long files)
     one(ctx, dn, rng.random() < 0.5, "int", rng.choice(iohelp.DELIMS), "utf-8", rng.choice(iohelp.TARGETS), big=True)
+    one(ctx, dn, rng.random() < 0.5, "str", rng.choice((None, ",", "|")), "utf-8", rng.choice(iohelp.TARGETS),
+        big="nonascii-big")
+    ctx.cell("src:big-non-ascii")
     if ctx.shard % 4 == 0:
         # a file whose rows are 16 bytes each (64 KiB, and 1 MiB in the thorough tier, fall between two rows)
         one(ctx, dn, ctx.shard % 8 == 0, "int", None, "utf-8", rng.choice(("path.txt", "path.gz", "fileobj")),
